@@ -688,11 +688,99 @@ def exPOps : List POp :=
 
 /-- What the examples look at: heads of spaces 0 and 1, their owned lists, the walks from the real
 heads, and `Map32`'s lists. -/
-def pview (q : Option (PG × PR)) : Option (Nat × Nat × List Nat × List Nat × List Nat × List Nat × List (List Nat)) :=
-  q.map fun (pg, p) => (p.heads 0, p.heads 1, pg.owned 0, pg.owned 1, walk p.st 8 (p.heads 0),
-    walk p.st 8 (p.heads 1), pg.g.lists)
+structure PView where
+  head0 : Nat
+  head1 : Nat
+  owned0 : List Nat
+  owned1 : List Nat
+  walk0 : List Nat
+  walk1 : List Nat
+  lists : List (List Nat)
+deriving Repr, DecidableEq
+
+def pview (q : Option (PG × PR)) : Option PView :=
+  q.map fun (pg, p) => ⟨p.heads 0, p.heads 1, pg.owned 0, pg.owned 1, walk p.st 8 (p.heads 0),
+    walk p.st 8 (p.heads 1), pg.g.lists⟩
 
 example : PValid true {} { st := finalize 12 2 9 } exPOps := pvalid_of_pvalidB _ (by decide +kernel)
 example : PValid false {} { st := finalize 12 2 9 } exPOps := pvalid_of_pvalidB _ (by decide +kernel)
+
+/-- After the first four operations space 0 owns `8, 5, 2` (head 8), space 1 owns `7`. -/
+example : pview (prun true {} { st := finalize 12 2 9 } (exPOps.take 4)) =
+    some ⟨8, 7, [8, 5, 2], [7], [8, 5, 2], [7], [[8, 5, 2], [7]]⟩ := by decide +kernel
+
+/-- Releasing the HEAD region 8 of space 0: the real head moves to its successor 5 and the walk from
+the real head returns the remaining regions. -/
+example : pview (prun true {} { st := finalize 12 2 9 } (exPOps.take 5)) =
+    some ⟨5, 7, [5, 2], [7], [5, 2], [7], [[5, 2], [7]]⟩ := by decide +kernel
+example : pview (prun false {} { st := finalize 12 2 9 } (exPOps.take 5)) =
+    some ⟨5, 7, [5, 2], [7], [5, 2], [7], [[5, 2], [7]]⟩ := by decide +kernel
+
+/-- Releasing a MIDDLE region (5 of `8, 5, 2`): the head stays, the walk skips it. -/
+example : pview (prun true {} { st := finalize 12 2 9 } (exPOps.take 7)) =
+    some ⟨8, 7, [8, 2], [7], [8, 2], [7], [[8, 2], [7]]⟩ := by decide +kernel
+
+/-- `release_all_chunks` of space 0 leaves space 1 (which re-used chunk 5) untouched. -/
+example : pview (prun true {} { st := finalize 12 2 9 } (exPOps.take 9)) =
+    some ⟨0, 5, [], [5, 7], [], [5, 7], [[], [5, 7]]⟩ := by decide +kernel
+
+/-- So `PInv` holds for a non-trivial state (`pr_history_inv_init` applied to a concrete history). -/
+example : ∃ pg p, prun true {} { st := finalize 12 2 9 } (exPOps.take 8) = some (pg, p) ∧ PInv 2 10 pg p ∧
+    pg.owned 0 = [8, 2] ∧ pg.owned 1 = [5, 7] := by
+  have hv : PValid true {} { st := finalize 12 2 9 } (exPOps.take 8) := pvalid_of_pvalidB _ (by decide +kernel)
+  obtain ⟨pg, p, h⟩ := pr_history_no_panic (debug := true) (exPOps.take 8)
+    (pinv_init (M := 12) (first := 2) (last := 9) (by decide) (by decide) (by decide)) hv
+  refine ⟨pg, p, h, pr_history_inv_init (by decide) (by decide) (by decide) hv h, ?_⟩
+  have : (prun true {} { st := finalize 12 2 9 } (exPOps.take 8)).map (fun q => (q.1.owned 0, q.1.owned 1)) =
+      some ([8, 2], [5, 7]) := by decide +kernel
+  rw [h] at this
+  simpa using this
+
+/-! ## Witness: the swapped order of `release_discontiguous_chunks` is wrong -/
+
+/-- The seeded regression: `free_contiguous_chunks(chunk)` FIRST, then
+`if chunk == *head { *head = get_next_contiguous_region(chunk) }` — on the map after the free, where the
+links of `chunk` are already zeroed. -/
+def PR.releaseSwapped (debug : Bool) (p : PR) (sp chunk : Nat) : Option PR :=
+  match freeNoLock debug p.st chunk with
+  | some (st', _) =>
+    some { st := st',
+           heads := if chunk == p.heads sp then upd p.heads sp (nextRegion st' chunk) else p.heads }
+  | none => none
+
+/-- Two grows of space 0 on `finalize 12 2 9` (regions 2 then 5, head 5), then the release of the head
+region 5 with both versions: (head after `releaseSwapped`, its walk, head after `release`, its walk,
+what the space owns). -/
+def swappedWitness : Option (Nat × List Nat × Nat × List Nat × List Nat) :=
+  match prun true {} { st := finalize 12 2 9 } [.grow 0 4 3, .grow 0 4 2] with
+  | some (pg, p) =>
+    match p.releaseSwapped true 0 5, p.release true 0 5 with
+    | some p1, some p2 =>
+      some (p1.heads 0, walk p1.st 8 (p1.heads 0), p2.heads 0, walk p2.st 8 (p2.heads 0), (pg.release 5).owned 0)
+    | _, _ => none
+  | none => none
+
+/-- `releaseSwapped` leaves `heads 0 = 0` although the space still owns region 2 (the list is lost:
+`head_is_list_head` is violated); `release` gives the older region 2 and the walk finds it. -/
+example : swappedWitness = some (0, [], 2, [2], [2]) := by decide +kernel
+
+/-- The same statement against the invariant: the state after `releaseSwapped` does not satisfy `PInv`
+for the bookkeeping of the release. -/
+example : ∀ pg p p1, prun true {} { st := finalize 12 2 9 } [.grow 0 4 3, .grow 0 4 2] = some (pg, p) →
+    p.releaseSwapped true 0 5 = some p1 → ¬ PInv 2 10 (pg.release 5) p1 := by
+  intro pg p p1 h1 h2 hP
+  have hw : swappedWitness = some (0, [], 2, [2], [2]) := by decide +kernel
+  unfold swappedWitness at hw
+  rw [h1] at hw
+  dsimp only at hw
+  rw [h2] at hw
+  cases h3 : p.release true 0 5 with
+  | none => rw [h3] at hw; cases hw
+  | some p2 =>
+    rw [h3] at hw
+    simp only [Option.some.injEq, Prod.mk.injEq] at hw
+    have := hP.head_is_list_head 0
+    rw [hw.1, hw.2.2.2.2] at this
+    cases this
 
 end Mmtk.Map32
